@@ -129,6 +129,9 @@ type Case struct {
 	// Mounted: the handler does not answer itself but enters a second router with its own c.Writer() and request (a mounted
 	// sub-router); the script runs in that router's handler. The record of the outer Logger carries what was sent all the same.
 	Mounted    bool        `json:"mounted,omitempty"`
+	// FailWrites: the connection is gone: every body write reaches the server-side writer (which sends the header that goes
+	// with it) and fails with no byte accepted. Handlers typically answer a failed write with an error status.
+	FailWrites bool `json:"fail_writes,omitempty"`
 	Global     ResolverCfg `json:"global_resolver"`
 	Route      ResolverCfg `json:"route_resolver"`
 	Method     string      `json:"method"`
@@ -158,6 +161,7 @@ type under struct {
 	final int   // 0 = no final status received
 	snap  http.Header
 	body  bytes.Buffer
+	fail  bool // body writes fail after the header went out
 }
 
 func (w *under) Header() http.Header { return w.h }
@@ -181,6 +185,9 @@ func (w *under) WriteHeader(code int) {
 
 func (w *under) Write(b []byte) (int, error) {
 	w.setFinal(http.StatusOK)
+	if w.fail {
+		return 0, errors.New("c20: write on a closed connection")
+	}
 	return w.body.Write(b)
 }
 
@@ -442,7 +449,7 @@ func wraps(c *Case) bool { return c.Install != "for-others" }
 
 // serve builds a fresh router for the case (with or without the Logger) and serves the request once.
 func serve(c *Case, withLogger bool) (*run, error) {
-	r := &run{errVal: errors.New("c20: error value passing through"), w: &under{h: http.Header{}}}
+	r := &run{errVal: errors.New("c20: error value passing through"), w: &under{h: http.Header{}, fail: c.FailWrites}}
 	var raw http.ResponseWriter
 	script := func(fc fox.Context) {
 		if c.SwapWriter && raw != nil && fc.Request().Header.Get(priorHeader) == "" {
@@ -1116,6 +1123,7 @@ func genCase(t *rapid.T) *Case {
 	c.SwapWriter = gen.Chance(t, 1, 5, "swapwriter")
 	c.LateDebug = gen.Chance(t, 1, 4, "latedebug")
 	c.Mounted = gen.Chance(t, 1, 5, "mounted")
+	c.FailWrites = gen.Chance(t, 1, 6, "failwrites")
 	gi := gen.U(t, len(ipPool), "globalIP")
 	ri := (gi + 1 + gen.U(t, len(ipPool)-1, "routeIP")) % len(ipPool)
 	c.Global = genResolver(t, []string{"none", "none", "nil", "ok", "ok", "ok", "fail", "fail"}, gi, "globalResolver")
